@@ -101,7 +101,7 @@ structure GeneralName where
 inductive SanExt where
   | bad
   | names (ns : List GeneralName)
-  deriving Repr
+  deriving Repr, DecidableEq, Inhabited
 
 def classContextSpecific : Nat := 2
 
